@@ -12,11 +12,20 @@ What is seen, and where:
   U_Tasks      TaskManager.shutdown_task_manager entered for T itself
   U_Listener   remove_listener called with T on the endpoint object T holds
   SockOpen / SockClose   loop.create_datagram_endpoint (simulated) for protocols of T's exit sockets / transport.close
+  RmSched      T.remove_exit_socket called (instance attribute placed from here) for a circuit whose exit socket has open
+               transports: a removal of those sockets is scheduled
+  BootInit / BootEnd     initialize() of a bootstrapper of T called (instance attribute of the bootstrapper object) / the
+               coroutine it returned has ended; t = the task of T in whose step it was called
+  BootOpen / BootClose   loop.create_datagram_endpoint for a protocol whose .overlay is T (the broadcast socket of a
+               UDPBroadcastBootstrapper; its OS socket is a FakeSocket, the simulated loop takes two iterations to open
+               it as the real one does) / transport.close; datagrams sent through the socket are Send events
 """
 from __future__ import annotations
 
 import asyncio
+import contextvars
 import functools
+import warnings
 
 from . import vloop
 
@@ -24,6 +33,45 @@ _TASK_TYPES = tuple({asyncio.Task, getattr(asyncio.tasks, "_PyTask", asyncio.Tas
                      getattr(asyncio.tasks, "_CTask", asyncio.Task)})
 
 ACTIVE = None      # the Recorder that currently receives class-level observations
+_JOB = contextvars.ContextVar("c11_boot_job", default=0)     # the bootstrapper initialisation this code runs in
+
+
+class FakeSocket:
+    """Stands in for the OS socket a UDPBroadcastBootstrapper creates itself (socket(); bind(("", 0))); what is sent
+    through it is reported to the recorder, nothing reaches the machine's network."""
+
+    def __init__(self, *_a, **_k):
+        self.transport = None
+        self.shut = False
+        self.sent = 0
+        self.burst, self.burst_len = None, -1
+
+    def setsockopt(self, *_a):
+        pass
+
+    def bind(self, _addr):
+        pass
+
+    def fileno(self):
+        return -1
+
+    def getsockname(self):
+        return ("0.0.0.0", 0)
+
+    def close(self):
+        self.shut = True
+
+    def sendto(self, data, addr):
+        if self.shut or (self.transport is not None and self.transport.closed):
+            raise OSError("simulated: socket is closed")
+        self.sent += 1
+        r = ACTIVE
+        if r is not None and (self.burst is not r.events or self.burst_len != len(r.events)):
+            # (a beacon is one datagram per port: logged once per burst, i.e. while nothing else happens in between)
+            if self.transport in r.bsocks:
+                r.boot_send(self.transport, data, addr)
+                self.burst, self.burst_len = r.events, len(r.events)
+        return len(data)
 
 
 class ObsLoop(vloop.VLoop):
@@ -69,10 +117,13 @@ class Recorder:
         self.context = ""        # what the driver is doing (diagnostics only)
         self.slow = {}           # sim endpoint -> seconds: datagrams of that peer towards T arrive that much later
         self.probe_calls = 0
+        self.sock_circuit = {}   # transport of an exit socket -> circuit id
+        self.bsocks = {}         # transport of a bootstrap socket -> id
+        self.njob = 0
 
     # ---- log
-    def log(self, e, a=0, ok=True, note="", o="ov"):
-        self.events.append({"e": e, "a": int(a), "ok": bool(ok), "o": o})
+    def log(self, e, a=0, ok=True, note="", o="ov", **extra):
+        self.events.append(dict({"e": e, "a": int(a), "ok": bool(ok), "o": o}, **extra))
         self.notes.append(note + (" [%s]" % self.context if self.context else ""))
         if self.trigger_at is not None and len(self.events) >= self.trigger_at and self.phase == "loaded":
             self.trigger_at = None
@@ -118,6 +169,18 @@ class Recorder:
                 rec.log("U_Listener")
             return r
         ep.remove_listener = remove_listener
+        if hasattr(ov, "remove_exit_socket"):
+            orig_rm = ov.remove_exit_socket
+
+            @functools.wraps(orig_rm)
+            def remove_exit_socket(circuit_id, *a, **k):
+                for tr, sid in list(rec.socks.items()):
+                    if not tr.closed and rec.sock_circuit.get(tr) == circuit_id:
+                        rec.log("RmSched", sid, note="remove_exit_socket(%s) %s" % (circuit_id, (a[:1] or ("",))[0]))
+                return orig_rm(circuit_id, *a, **k)
+            ov.remove_exit_socket = remove_exit_socket
+        for bs in list(getattr(ov, "bootstrappers", [])):
+            self.watch_bootstrapper(bs)
         # tasks registered while T was constructed (before any spy could see them)
         for name, fut in list(ov._pending_tasks.items()):                  # noqa: SLF001
             self.adopt(fut, "ov", name)
@@ -125,6 +188,39 @@ class Recorder:
         if rc is not None:
             for name, fut in list(rc._pending_tasks.items()):              # noqa: SLF001
                 self.adopt(fut, "cache", name)
+
+    def watch_bootstrapper(self, bs):
+        """initialize() of a bootstrapper object of T: the call and the end of the coroutine it returns"""
+        rec = self
+        orig = bs.initialize
+
+        @functools.wraps(orig)
+        def initialize(overlay):
+            fresh = not bs.initialized
+            res = orig(overlay)
+            if not fresh or overlay is not rec.t or not asyncio.iscoroutine(res):
+                return res
+            rec.njob += 1
+            b = rec.njob
+            cur = asyncio.current_task()
+            holder = rec.owned.get(cur, (0, ""))[0] if cur is not None else 0
+            rec.log("BootInit", b, note="%s.initialize called in task %s" % (type(bs).__name__, holder), t=holder)
+
+            async def job():
+                _JOB.set(b)
+                try:
+                    return await res
+                finally:
+                    rec.log("BootEnd", b, note="%s.initialize ended" % type(bs).__name__)
+            return job()
+        bs.initialize = initialize
+
+    def boot_send(self, tr, data, addr):
+        """a datagram leaves through a bootstrap socket"""
+        self.log("Send", 2, note="bootstrap socket %d: %d bytes to %s:*" % (self.bsocks[tr], len(data), addr[0]))
+
+    def open_boot_sockets(self):
+        return sorted(sid for tr, sid in self.bsocks.items() if not tr.closed)
 
     def adopt(self, fut, owner, name, log=True):
         self.ntask += 1
@@ -171,6 +267,8 @@ _saved = {}
 def install(loop, net, rec):
     global ACTIVE
     ACTIVE = rec
+    # an initialisation that is cancelled before its first step leaves the coroutine it wraps un-awaited
+    warnings.filterwarnings("ignore", message="coroutine '.*initialize' was never awaited", category=RuntimeWarning)
     net.policy = rec.on_transmit
     net.on_outside = rec.on_outside
     _install_class_spies()
@@ -182,6 +280,10 @@ def _install_class_spies():
     from ipv8.taskmanager import TaskManager
     if _saved:
         return
+    # environment: the OS socket of the broadcast bootstrapper
+    from ipv8.bootstrapping.udpbroadcast import bootstrapper as _ub
+    _saved["ub_socket"] = _ub.socket
+    _ub.socket = FakeSocket
     o_register = _saved["register_task"] = TaskManager.register_task
     o_shutdown = _saved["shutdown_task_manager"] = TaskManager.shutdown_task_manager
     o_add = _saved["add"] = RequestCache.add
@@ -263,12 +365,37 @@ def _install_socket_spy(loop, net):
     o_create = net.create_datagram_endpoint
 
     async def create_datagram_endpoint(protocol_factory, local_addr=None, **kw):
+        fake = kw.pop("sock", None)
+        if fake is not None:
+            # the real loop hands the transport over only after connection_made ran: two more iterations, during which
+            # the caller can be cancelled (then no transport exists and the socket is closed)
+            try:
+                await asyncio.sleep(0)
+                await asyncio.sleep(0)
+            except BaseException:
+                fake.close()
+                raise
         tr, proto = await o_create(protocol_factory, local_addr=local_addr, **kw)
         r = ACTIVE
+        if fake is not None:
+            fake.transport = tr
+        if r is not None and fake is not None and getattr(proto, "overlay", None) is r.t:
+            sid = len(r.bsocks) + 1
+            r.bsocks[tr] = sid
+            r.log("BootOpen", sid, note="socket of %s" % type(proto).__name__, t=_JOB.get())
+            o_bclose = tr.close
+
+            def bclose():
+                if not tr.closed:
+                    r.log("BootClose", sid)
+                return o_bclose()
+            tr.close = bclose
+            return tr, proto
         owner = getattr(getattr(proto, "received_cb", None), "__self__", None)
         if r is not None and owner is not None and r.owner_of(owner) == "sock":
             sid = len(r.socks) + 1
             r.socks[tr] = sid
+            r.sock_circuit[tr] = getattr(owner, "circuit_id", None)
             r.log("SockOpen", sid, note="exit socket of circuit %s" % getattr(owner, "circuit_id", "?"))
             o_close = tr.close
 
@@ -294,4 +421,6 @@ def uninstall():
     RequestCache.pop = _saved["pop"]
     RequestCache._on_timeout = _saved["_on_timeout"]                      # noqa: SLF001
     RequestCache.shutdown = _saved["shutdown"]
+    from ipv8.bootstrapping.udpbroadcast import bootstrapper as _ub
+    _ub.socket = _saved["ub_socket"]
     _saved.clear()
